@@ -7,6 +7,7 @@
                     computed at run time (`xs[d.pos]`, `xs[xs.length - 1]`) rather than written as a literal
    [dom_C11]        names_ok && shape_ok && fold_free && negb top_method && negb raw_undefined *)
 From PV Require Import Base.Bytes Base.Escape Models.Convert Proofs.ConvertProofs.
+From Coq Require Import Permutation.
 
 (* every in-domain path, into every finite data tree, prints the Go leaf (escaped unless `!=`) and is no error *)
 Theorem C11_path : forall (d : gv) (p : list step) (raw : bool),
@@ -87,6 +88,45 @@ Theorem C11_index_nil_list : forall (g : gv) (c : bool) (i : Z),
   eval_step (Some (convert g)) (Idx c i) = ROk (Some VNil) /\ go_step g (Idx c i) = None.
 Proof. exact index_nil_list. Qed.
 Print Assumptions C11_index_nil_list.
+
+(* members that collide after the lower-camel mapping (an exported field Title next to an unexported field title, an
+   unexported field holder next to a method Holder(), an embedded type Inner next to a field inner). Unexported fields
+   are invisible wherever they are declared: deleting them all changes neither the member table M builds - for the
+   struct by value and behind a pointer - nor what S can select (so, by C11_path, no path sees them) ... *)
+Theorem C11_unexported_invisible : forall (fs : list (bytes * bool * gv)) (vm pm : list (bytes * bytes * gv)),
+  convert (GStruct fs vm pm) = convert (GStruct (exported_fields fs) vm pm) /\
+  convert (GPtr (GStruct fs vm pm)) = convert (GPtr (GStruct (exported_fields fs) vm pm)) /\
+  members (GStruct fs vm pm) = members (GStruct (exported_fields fs) vm pm) /\
+  members (GPtr (GStruct fs vm pm)) = members (GPtr (GStruct (exported_fields fs) vm pm)).
+Proof. exact unexported_invisible. Qed.
+Print Assumptions C11_unexported_invisible.
+
+(* ... and the order in which the fields of a struct are declared is immaterial: for EVERY permutation of the field
+   list (the exported names being distinct under the mapping, as Go's are; the unexported ones are unrestricted) every
+   name selects the same member in S and evaluates to the same value in M, by value and behind a pointer *)
+Theorem C11_declaration_order :
+  forall (fs fs' : list (bytes * bool * gv)) (vm pm : list (bytes * bytes * gv)),
+  Permutation fs fs' -> NoDup (keys (field_members fs)) ->
+  forall n : bytes,
+    go_member (GStruct fs vm pm) n = go_member (GStruct fs' vm pm) n /\
+    go_member (GPtr (GStruct fs vm pm)) n = go_member (GPtr (GStruct fs' vm pm)) n /\
+    eval_step (Some (convert (GStruct fs vm pm))) (Field n) =
+    eval_step (Some (convert (GStruct fs' vm pm))) (Field n) /\
+    eval_step (Some (convert (GPtr (GStruct fs vm pm)))) (Field n) =
+    eval_step (Some (convert (GPtr (GStruct fs' vm pm)))) (Field n).
+Proof. exact declaration_order. Qed.
+Print Assumptions C11_declaration_order.
+
+(* what Map.convert's guard (`if val.Field(i).CanInterface()`) is for: a field loop that stored every field - an
+   unreadable one as Nil - would let an unexported field hide the exported field of the same lower-camel name when it
+   is declared after it, and only then *)
+Theorem C11_unguarded_table_refuted :
+  exists (fs fs' : list (bytes * bool * gv)) (n : bytes) (v : gv),
+    Permutation fs fs' /\ NoDup (keys (field_members fs)) /\
+    go_member (GStruct fs [] []) n = Some (MField v) /\ convert v <> VNil /\
+    lookup n (table_unguarded fs) = Some VNil /\ lookup n (table_unguarded fs') = Some (convert v).
+Proof. exact unguarded_refuted. Qed.
+Print Assumptions C11_unguarded_table_refuted.
 
 (* histories: any number of renders one after the other in one process. Every in-domain render of a history prints
    what the property demands of its own value ... *)
